@@ -534,41 +534,131 @@ Lemma hdr3_keys_ok k1 v1 k2 v2 k3 v3 :
   no_eq k1 = true -> no_eq k2 = true -> no_eq k3 = true -> keys_ok [(k1, v1); (k2, v2); (k3, v3)] = true.
 Proof. intros H1 H2 H3. cbn [keys_ok forallb fst]. rewrite H1, H2, H3. reflexivity. Qed.
 
-Lemma on_connection_rendered id topic fields w sq sk :
-  rec_wf (BConn id topic fields) = true ->
-  all_ok (fst (rec_calls (BConn id topic fields) (sk, sq))) w ->
-  forall bs,
-  on_connection o lib compress (render_fields (conn_hdr id topic)) (render_fields fields) (mks w bs sk)
-  = (mks (exec (fst (rec_calls (BConn id topic fields) (sk, sq))) w) bs (fst (snd (rec_calls (BConn id topic fields) (sk, sq)))), None).
+Definition conn_apply (id : N) (topic : bytes) (fields : kvs) (s : bstate) : bstate * option err :=
+  let '(s, e, sid) :=
+    match sk_get (conn_key fields) (b_schemas s) with
+    | Some sid => (s, None, sid)
+    | None =>
+      let sid := (N.of_nat (length (b_schemas s)) + 1) mod two16 in
+      let '(s', e) := wstep o lib compress (CSchema (conn_schema fields sid)) s in
+      match e with
+      | Some e => (s', Some e, sid)
+      | None => ({| b_w := b_w s'; b_seq := b_seq s'; b_schemas := b_schemas s' ++ [(conn_key fields, sid)] |}, None, sid)
+      end
+    end in
+  match e with
+  | Some e => (s, Some e)
+  | None => if 65535 <? id then (s, Some EOther) else wstep o lib compress (CChannel (conn_channel id topic fields sid)) s
+  end.
+
+Lemma on_connection_unfold id topic fields s :
+  blen (render_fields (conn_hdr id topic)) < two32 -> id < two32 ->
+  keys_ok fields = true -> blen (render_fields fields) < two32 ->
+  on_connection o lib compress (render_fields (conn_hdr id topic)) (render_fields fields) s = conn_apply id topic fields s.
 Proof.
-  intros Hwf Hok bs. cbn [rec_wf] in Hwf. unfold len_ok in Hwf.
-  apply andb_true_iff in Hwf as [Hwf H4]. apply andb_true_iff in Hwf as [Hwf H3].
-  apply andb_true_iff in Hwf as [H1 H2].
+  intros H2 H1 H3 H4.
   assert (Hkeys : keys_ok (conn_hdr id topic) = true) by (apply hdr3_keys_ok; reflexivity).
   unfold on_connection.
-  rewrite !extract_value_rendered by (assumption || lia).
+  rewrite !extract_value_rendered by assumption.
   change (kv_find k_conn (conn_hdr id topic)) with (Some (u32 id)).
   change (kv_find k_topic (conn_hdr id topic)) with (Some topic).
   cbv iota. rewrite u32_length. change (Nat.ltb 4 4) with false. cbv iota.
-  rewrite firstn4_u32_only, unle_u32 by (unfold two32; lia).
-  rewrite header_to_map_rendered by (assumption || lia). cbv zeta.
+  rewrite firstn4_u32_only, unle_u32 by assumption.
+  rewrite header_to_map_rendered by assumption. cbv zeta.
   rewrite !(kv_get_del_other k_msgdef k_type) by reflexivity.
   rewrite !(kv_get_del_other k_md5 k_msgdef) by reflexivity.
   rewrite !(kv_get_del_other k_md5 k_type) by reflexivity.
-  fold (conn_type fields). fold (conn_md5 fields). fold (conn_msgdef fields). fold (conn_meta fields).
-  fold (conn_key fields).
-  cbn [rec_calls] in Hok |- *. unfold mks. cbn [b_w b_seq b_schemas].
-  destruct (sk_get (conn_key fields) sk) as [sid|] eqn:Esk.
-  - cbn [fst snd] in Hok |- *. cbn [all_ok] in Hok. destruct Hok as [Hc _].
-    destruct (65535 <? id) eqn:E; [lia|].
-    unfold wstep. cbn [b_w b_seq b_schemas]. unfold conn_channel in *. cbn [exec].
-    destruct (step o lib compress None _ w) as [w' e']. cbn [fst snd] in Hc |- *. subst e'. reflexivity.
-  - cbn [fst snd] in Hok |- *. cbn [all_ok] in Hok. destruct Hok as [Hs [Hc _]].
-    unfold wstep. cbn [b_w b_seq b_schemas]. unfold conn_schema, conn_channel in *. cbn [exec].
+  reflexivity.
+Qed.
+
+Lemma conn_apply_ok id topic fields w sq sk bs :
+  id <= 65535 ->
+  all_ok (fst (rec_calls (BConn id topic fields) (sk, sq))) w ->
+  conn_apply id topic fields (mks w bs sk)
+  = (mks (exec (fst (rec_calls (BConn id topic fields) (sk, sq))) w) bs (fst (snd (rec_calls (BConn id topic fields) (sk, sq)))), None).
+Proof.
+  intros Hid Hok. unfold conn_apply, mks, wstep. cbn [b_w b_seq b_schemas]. cbn [rec_calls] in Hok |- *.
+  destruct (65535 <? id) eqn:E; [lia|].
+  destruct (sk_get (conn_key fields) sk) as [sid|] eqn:Esk; cbn [fst snd all_ok exec b_w b_seq b_schemas] in Hok |- *.
+  - destruct Hok as [Hc _].
+    destruct (step o lib compress None (CChannel _) w) as [w' e']. cbn [fst snd] in Hc |- *. subst e'. reflexivity.
+  - destruct Hok as [Hs [Hc _]].
     destruct (step o lib compress None (CSchema _) w) as [w1 e1]. cbn [fst snd] in Hs, Hc |- *. subst e1.
     cbn [b_w b_seq b_schemas].
-    destruct (65535 <? id) eqn:E; [lia|].
     destruct (step o lib compress None (CChannel _) w1) as [w2 e2]. cbn [fst snd] in Hc |- *. subst e2. reflexivity.
+Qed.
+
+Lemma on_connection_rendered id topic fields w sq sk bs :
+  rec_wf (BConn id topic fields) = true ->
+  all_ok (fst (rec_calls (BConn id topic fields) (sk, sq))) w ->
+  on_connection o lib compress (render_fields (conn_hdr id topic)) (render_fields fields) (mks w bs sk)
+  = (mks (exec (fst (rec_calls (BConn id topic fields) (sk, sq))) w) bs (fst (snd (rec_calls (BConn id topic fields) (sk, sq)))), None).
+Proof.
+  intros Hwf Hok. cbn [rec_wf] in Hwf. unfold len_ok in Hwf.
+  apply andb_true_iff in Hwf as [Hwf H4]. apply andb_true_iff in Hwf as [Hwf H3].
+  apply andb_true_iff in Hwf as [H1 H2].
+  rewrite on_connection_unfold by (assumption || (unfold two32; lia) || lia).
+  apply conn_apply_ok; [lia|assumption].
+Qed.
+
+(* ----- message records ----- *)
+Definition msg_apply (conn secs nsecs : N) (data : bytes) (s : bstate) : bstate * option err :=
+  if 65535 <? conn then (s, Some EOther) else
+  let '(s', e) := wstep o lib compress
+     (CMessage {| m_chan := conn; m_seq := b_seq s; m_log := secs * 1000000000 + nsecs;
+                  m_pub := secs * 1000000000 + nsecs; m_data := data |}) s in
+  match e with
+  | Some e => (s', Some e)
+  | None => ({| b_w := b_w s'; b_seq := (b_seq s' + 1) mod two32; b_schemas := b_schemas s' |}, None)
+  end.
+
+Lemma msg_hdr_len conn secs nsecs : blen (render_fields (msg_hdr conn secs nsecs)) = 40.
+Proof.
+  unfold blen, render_fields, msg_hdr. cbn [map concat fst snd]. unfold render_field, fld.
+  rewrite !app_length. cbn [length]. rewrite !app_length, !u32_length. reflexivity.
+Qed.
+
+Lemma on_message_unfold conn secs nsecs data s :
+  conn < two32 -> secs < two32 -> nsecs < two32 ->
+  on_message o lib compress (render_fields (msg_hdr conn secs nsecs)) data s = msg_apply conn secs nsecs data s.
+Proof.
+  intros H1 H2 H3.
+  assert (Hkeys : keys_ok (msg_hdr conn secs nsecs) = true) by (apply hdr3_keys_ok; reflexivity).
+  assert (Hlen : blen (render_fields (msg_hdr conn secs nsecs)) < two32) by (rewrite msg_hdr_len; reflexivity).
+  unfold on_message.
+  rewrite !extract_value_rendered by assumption.
+  change (kv_find k_conn (msg_hdr conn secs nsecs)) with (Some (u32 conn)).
+  change (kv_find k_time (msg_hdr conn secs nsecs)) with (Some (u32 secs ++ u32 nsecs)).
+  cbv iota. rewrite app_length, !u32_length. change (Nat.ltb 4 4) with false. change (Nat.ltb (4 + 4) 8) with false.
+  cbv iota.
+  rewrite firstn4_u32_only, firstn4_u32, skipn4_u32, firstn4_u32_only, !unle_u32 by assumption.
+  reflexivity.
+Qed.
+
+Lemma msg_apply_ok conn secs nsecs data w sq sk :
+  conn <= 65535 ->
+  all_ok (fst (rec_calls (BMsg conn secs nsecs data) (sk, sq))) w ->
+  msg_apply conn secs nsecs data (mks w (sq mod two32) sk)
+  = (mks (exec (fst (rec_calls (BMsg conn secs nsecs data) (sk, sq))) w) ((sq + 1) mod two32) sk, None).
+Proof.
+  intros Hid Hok. unfold msg_apply, mks, wstep. cbn [b_w b_seq b_schemas]. cbn [rec_calls fst snd all_ok exec] in Hok |- *.
+  destruct (65535 <? conn) eqn:E; [lia|].
+  destruct Hok as [Hc _]. unfold msg_message in *.
+  destruct (step o lib compress None (CMessage _) w) as [w' e']. cbn [fst snd] in Hc |- *. subst e'.
+  cbn [b_w b_seq b_schemas]. rewrite N.add_mod_idemp_l by (unfold two32; lia). reflexivity.
+Qed.
+
+Lemma on_message_rendered conn secs nsecs data w sq sk :
+  rec_wf (BMsg conn secs nsecs data) = true ->
+  all_ok (fst (rec_calls (BMsg conn secs nsecs data) (sk, sq))) w ->
+  on_message o lib compress (render_fields (msg_hdr conn secs nsecs)) data (mks w (sq mod two32) sk)
+  = (mks (exec (fst (rec_calls (BMsg conn secs nsecs data) (sk, sq))) w) ((sq + 1) mod two32) sk, None).
+Proof.
+  intros Hwf Hok. cbn [rec_wf] in Hwf. unfold len_ok in Hwf.
+  apply andb_true_iff in Hwf as [Hwf H4]. apply andb_true_iff in Hwf as [Hwf H3].
+  apply andb_true_iff in Hwf as [H1 H2].
+  rewrite on_message_unfold by ((unfold two32; lia) || lia).
+  apply msg_apply_ok; [lia|assumption].
 Qed.
 
 End Walk.
